@@ -132,7 +132,7 @@ func checkA(c CaseA) *core.Violation {
 		}
 		kind := "bytes-differ"
 		if len(got) < want.Len() {
-			kind = "tokens-lost"
+			kind = "tokens-lost|" + lossSite(toks, got, parsed.Body.(*hclsyntax.Body))
 		} else if len(got) > want.Len() {
 			kind = "tokens-duplicated"
 		}
@@ -200,6 +200,64 @@ func checkA(c CaseA) *core.Violation {
 		}
 	}
 	return nil
+}
+
+// lossSite names the place of the first token of src that is missing from the
+// tree's token stream: its type and its syntactic position.
+func lossSite(toks []tk, got []byte, body *hclsyntax.Body) string {
+	gt, _ := lex(got)
+	i := sameToks(toks, gt)
+	if i < 0 || i >= len(toks) {
+		return "unknown"
+	}
+	lost := toks[i]
+	ty := strings.ToLower(strings.TrimPrefix(fmt.Sprint(lost.Type), "Token"))
+	var inHeader func(b *hclsyntax.Body) bool
+	inHeader = func(b *hclsyntax.Body) bool {
+		for _, bl := range b.Blocks {
+			if len(bl.LabelRanges) > 0 && lost.Start >= bl.TypeRange.End.Byte && lost.End <= bl.LabelRanges[0].Start.Byte {
+				return true
+			}
+			if inHeader(bl.Body) {
+				return true
+			}
+		}
+		return false
+	}
+	switch {
+	case inHeader(body):
+		return ty + "|between-block-type-and-first-label"
+	case keywordIndexKey(toks, i):
+		return "keyword-literal-index-key"
+	case i > 0:
+		return ty + "|after-" + strings.ToLower(strings.TrimPrefix(fmt.Sprint(toks[i-1].Type), "Token"))
+	}
+	return ty
+}
+
+// keywordIndexKey: token i is the first token inside an index bracket whose only
+// non-comment content is true, false or null.
+func keywordIndexKey(toks []tk, i int) bool {
+	if i == 0 || toks[i-1].Type != hclsyntax.TokenOBrack {
+		return false
+	}
+	n := 0
+	for j := i; j < len(toks); j++ {
+		switch toks[j].Type {
+		case hclsyntax.TokenComment, hclsyntax.TokenNewline:
+			continue
+		case hclsyntax.TokenIdent:
+			if b := toks[j].Bytes; b != "true" && b != "false" && b != "null" {
+				return false
+			}
+			n++
+		case hclsyntax.TokenCBrack:
+			return n == 1
+		default:
+			return false
+		}
+	}
+	return false
 }
 
 func minInt(a, b int) int {
